@@ -9,6 +9,7 @@ import (
 	"reflect"
 	"sort"
 	"strings"
+	"sync"
 	"testing"
 
 	"github.com/google/uuid"
@@ -208,6 +209,15 @@ func genQuota(t *rapid.T) QuotaCase {
 		MaxCollections: rapid.IntRange(1, 3).Draw(t, "mc"), MaxPoints: int64(rapid.IntRange(3, 30).Draw(t, "mp"))}
 	n := rapid.IntRange(1, 14).Draw(t, "nops")
 	for i := 0; i < n; i++ {
+		if i > 0 && rapid.IntRange(0, 9).Draw(t, fmt.Sprintf("replan%d", i)) == 0 {
+			// the user moves to another plan: other quotas from now on
+			c.Ops = append(c.Ops, Op{Kind: "replan", Col: rapid.IntRange(1, 4).Draw(t, fmt.Sprintf("rpc%d", i)), N: rapid.IntRange(2, 40).Draw(t, fmt.Sprintf("rpp%d", i))})
+			continue
+		}
+		if i > 0 && rapid.IntRange(0, 9).Draw(t, fmt.Sprintf("burst%d", i)) == 0 {
+			c.Ops = append(c.Ops, Op{Kind: "burst", N: rapid.IntRange(2, 6).Draw(t, fmt.Sprintf("bn%d", i))})
+			continue
+		}
 		if i == 0 || rapid.IntRange(0, 4).Draw(t, fmt.Sprintf("k%d", i)) == 0 {
 			c.Ops = append(c.Ops, Op{Kind: "create", Col: rapid.IntRange(0, 3).Draw(t, fmt.Sprintf("c%d", i))})
 			continue
@@ -229,12 +239,16 @@ func execQuota(c QuotaCase) (res vt.Result) {
 		return vt.Result{Err: err}
 	}
 	defer node.Close()
-	plan := drive.UserPlan(c.MaxCollections, c.MaxPoints, 1<<20)
+	// the user's active plan; it can change (op "replan"), collections keep the plan they were created
+	// under in their record, and every request is judged by the active one (the caller binds it)
+	maxCollections, maxPoints := c.MaxCollections, c.MaxPoints
+	plan := drive.UserPlan(maxCollections, maxPoints, 1<<20)
 	schema := models.IndexSchema{"n": {Type: models.IndexTypeInteger}}
 	user := "alice"
 	exists := map[int]bool{}
 	stored := map[int][]uuid.UUID{} // ids successfully inserted per collection
 	nextId := 0
+	burstSeq := 0
 	colName := func(i int) string { return fmt.Sprintf("col%d", i) }
 	type snapshot struct {
 		cols   []string
@@ -290,6 +304,56 @@ func execQuota(c QuotaCase) (res vt.Result) {
 			return fail("observe: %v", err)
 		}
 		switch op.Kind {
+		case "burst":
+			// op.N creation requests for distinct new collections at the same time: the user must not end up
+			// above the collection quota, and exactly the free slots are filled
+			free := maxCollections - len(before.cols)
+			if free < 0 {
+				free = 0
+			}
+			var wg sync.WaitGroup
+			errs := make([]error, op.N)
+			names := make([]int, op.N)
+			for j := 0; j < op.N; j++ {
+				burstSeq++
+				names[j] = 100 + burstSeq
+				wg.Add(1)
+				go func(j int) {
+					defer wg.Done()
+					errs[j] = node.CreateCollection(models.Collection{UserId: user, Id: colName(names[j]), Replicas: 1, UserPlan: plan, IndexSchema: schema})
+				}(j)
+			}
+			wg.Wait()
+			ok := 0
+			for j, err := range errs {
+				switch {
+				case err == nil:
+					ok++
+					exists[names[j]] = true
+				case !errors.Is(err, cluster.ErrQuotaReached):
+					return fail("concurrent creation %d returned %v", j, err)
+				}
+			}
+			after, oerr := observe(op.Col)
+			if oerr != nil {
+				return fail("observe: %v", oerr)
+			}
+			if len(after.cols) != len(before.cols)+ok {
+				return fail("%d concurrent creations reported success, the collection list grew from %d to %d", ok, len(before.cols), len(after.cols))
+			}
+			if ok != min(op.N, free) {
+				return fail("%d concurrent creations with %d of %d collection slots free: %d succeeded (the user now has %d collections)", op.N, free, maxCollections, ok, len(after.cols))
+			}
+			rec.Count("concurrent_creation_bursts", 1)
+			if op.N > free {
+				nontrivial = true
+			}
+			continue
+		case "replan":
+			maxCollections, maxPoints = op.Col, int64(op.N)
+			plan = drive.UserPlan(maxCollections, maxPoints, 1<<20)
+			rec.Count("plan_changes", 1)
+			continue
 		case "create":
 			err := node.CreateCollection(models.Collection{UserId: user, Id: colName(op.Col), Replicas: 1, UserPlan: plan, IndexSchema: schema})
 			after, oerr := observe(op.Col)
@@ -304,9 +368,9 @@ func execQuota(c QuotaCase) (res vt.Result) {
 				if fmt.Sprint(before) != fmt.Sprint(after) {
 					return fail("a refused creation changed the state: %v -> %v", before, after)
 				}
-			case len(before.cols) >= c.MaxCollections:
+			case len(before.cols) >= maxCollections:
 				if !errors.Is(err, cluster.ErrQuotaReached) {
-					return fail("creating collection number %d with a quota of %d returned %v", len(before.cols)+1, c.MaxCollections, err)
+					return fail("creating collection number %d with a quota of %d returned %v", len(before.cols)+1, maxCollections, err)
 				}
 				if fmt.Sprint(before.cols) != fmt.Sprint(after.cols) {
 					return fail("a creation refused for quota changed the collection list: %v -> %v", before.cols, after.cols)
@@ -378,9 +442,9 @@ func execQuota(c QuotaCase) (res vt.Result) {
 				}
 				continue
 			}
-			if total(before)+int64(op.N) > c.MaxPoints {
+			if total(before)+int64(op.N) > maxPoints {
 				if !errors.Is(err, cluster.ErrQuotaReached) {
-					return fail("insert of %d points into a collection of %d with quota %d returned %v", op.N, total(before), c.MaxPoints, err)
+					return fail("insert of %d points into a collection of %d with quota %d (active plan) returned %v", op.N, total(before), maxPoints, err)
 				}
 				if fmt.Sprint(before) != fmt.Sprint(after) {
 					return fail("an insert refused for quota changed the state: %v -> %v", before, after)
